@@ -107,7 +107,7 @@ class MMember:
         self.ver = ver
 
     def is_ical(self, name):
-        return self.ctype.split(";")[0].strip() == "text/calendar" or name.endswith(".ics")
+        return self.ctype.split(";")[0].strip().lower() == "text/calendar" or name.endswith(".ics")
 
     def key(self):
         return (hashlib.sha1(self.raw).hexdigest(), self.ctype)
@@ -157,8 +157,9 @@ def draw_suffix(i):
     return [";1", ";type=a", ";", ",x", "=1"][i % 5]
 
 
-def parse_etag_list(value):
-    """-> (wellformed, star, [strong etags]).  Strong comparison (RFC 7232 2.3.2)."""
+def parse_etag_list(value, weak_ok=False):
+    """-> (wellformed, star, [strong etags]).  Strong comparison (RFC 7232 2.3.2): with weak_ok a weak
+    validator W/"x" is a well-formed list member that matches nothing (If-Match, RFC 7232 3.1)."""
     items = [x.strip(" \t") for x in value.split(",")]
     star = False
     tags = []
@@ -168,6 +169,8 @@ def parse_etag_list(value):
             star = True
         elif len(it) >= 2 and it[0] == '"' and it[-1] == '"' and '"' not in it[1:-1]:
             tags.append(it)
+        elif weak_ok and len(it) >= 4 and it[:3] == 'W/"' and it[-1] == '"' and '"' not in it[3:-1]:
+            pass
         else:
             well = False
     if star and len(items) > 1:
@@ -186,7 +189,7 @@ def cond_truth(hdrs, exists, cur_etag):
         kl = k.lower()
         if kl not in ("if-match", "if-none-match"):
             continue
-        well, star, tags = parse_etag_list(v)
+        well, star, tags = parse_etag_list(v, weak_ok=(kl == "if-match"))
         if not well:
             decided = False
         matches = exists and (star or (cur_etag in tags))
@@ -200,7 +203,7 @@ def cond_truth(hdrs, exists, cur_etag):
 
 
 def uid_of_member(name, raw, ctype="text/calendar"):
-    if not (name.endswith(".ics") or ctype.split(";")[0].strip() == "text/calendar"):
+    if not (name.endswith(".ics") or ctype.split(";")[0].strip().lower() == "text/calendar"):
         return None
     try:
         return icalref.calendar_uid(raw)
@@ -799,7 +802,7 @@ class Runner:
             # overwrite: the resource keeps its content type (extension decides)
             is_cal = name.endswith(".ics")
         else:
-            is_cal = ctype.split(";")[0].strip() == "text/calendar"
+            is_cal = ctype.split(";")[0].strip().lower() == "text/calendar"
         if not is_cal:
             return
         try:
@@ -1727,7 +1730,7 @@ class Runner:
         if mc is None:
             return set()
         path = self.member_path(coll, name)
-        is_cal = name.endswith(".ics") or st["ctype"].startswith("text/calendar")
+        is_cal = name.endswith(".ics") or st["ctype"].lower().startswith("text/calendar")
         root = "VCALENDAR" if is_cal else "VCARD"
         tag0 = self.read_tags(coll, fe)[P_CTAG]
         n0 = self.commit_count(coll)
